@@ -222,7 +222,7 @@ def cases(unit):
 # ------------------------------------------------------------------------------------------
 # histories: join, edit a key cell in place (every write path), join again  ("non-initial states")
 # ------------------------------------------------------------------------------------------
-WRITE_PATHS = ("cell", "view", "replace")
+WRITE_PATHS = ("cell", "view", "replace", "cell2", "view2")
 
 
 def hist_cases(kind, maxrows=2):
@@ -242,6 +242,13 @@ def hist_cases(kind, maxrows=2):
 
 def apply_mutation(table, kname, idx, new, path):
     from serif import Vector
+    if path in ("cell2", "view2"):
+        # two in-place writes in a row (an intermediate value first): the key column's storage is swapped twice
+        cur = table[kname]._underlying[idx]
+        inter = [x for x in (table[kname]._underlying + (new,)) if x is not None and x != new]
+        apply_mutation(table, kname, idx, inter[0] if inter else new, path[:-1])
+        apply_mutation(table, kname, idx, new, path[:-1])
+        return
     if path == "cell":
         table[idx, kname] = new
     elif path == "view":
@@ -253,9 +260,12 @@ def apply_mutation(table, kname, idx, new, path):
 
 
 def run_hist_unit(unit, methods):
-    """unit = ('hist', kind, form).  For every case: op, mutate, op again; both results vs the model."""
-    _, kind, form = unit
+    """unit = ('hist', kind, form[, allocator policy]).  For every case: op, mutate, op again; both results vs the model."""
+    _, kind, form = unit[:3]
     agg = Agg()
+    if len(unit) > 3 and unit[3] != "fresh":
+        from . import core
+        core.reset_globals(unit[3])
     h = hashlib.sha256()
     for lkeys, rkeys, side, idx, new, path in hist_cases(kind):
         hist_one(agg, h, kind, form, methods, lkeys, rkeys, side, idx, new, path)
